@@ -299,6 +299,35 @@ def classify_conv(sem, S, base, lpath, name, F, is_flag, fallible):
     return None
 
 
+def check_scope_tables(ctx):
+    """enum.scope-table (shared with C01 and C04): the Rust enum that an expansion / login version exports under a wowm enum's name
+    has exactly the enumerators the wowm definition valid for that version declares, in order - the readers convert into the
+    type the scope exports, so a scope that re-exports another version's enum rejects declared values (or accepts undeclared ones)"""
+    g = G()
+    P = Pairing(g)
+    n = 0
+    seen = set()
+    for pair in P.of_kind("enum"):
+        o = pair["obj"].ast
+        rust = pair["rust"]
+        if (rust, id(o)) in seen:
+            continue
+        seen.add((rust, id(o)))
+        crate, lpath = split_gpath(rust)
+        adt = g.f(crate).adt(lpath)
+        n += 1
+        if adt is None or adt["kind"] != "Enum":
+            ctx.violate("enum.scope-table", f"{pair['scope']}|{o.name}|adt", f"wowm enum {o.name} ({o.file}:{o.line}) of scope {pair['scope']} is not paired with a Rust enum at {rust}")
+            continue
+        want = [enumerator_rust_name(f[0]) for f in o.fields]
+        got = [v[0] for v in adt["variants"]]
+        if got != want:
+            diff = sorted(set(want) ^ set(got))[:6]
+            ctx.violate("enum.scope-table", f"{pair['scope']}|{o.name}", f"scope {pair['scope']} exports {rust} for the wowm enum {o.name} ({o.file}:{o.line}): its variants differ from the definition's enumerators "
+                        f"(differing: {diff}): values the definition declares are rejected or undeclared ones accepted", adt["file"], adt["line"])
+    ctx.rule("enum.scope-table", n, floor=301, note="(scope, wowm enum) -> exported Rust enum: variant list = enumerators of the definition valid in that scope")
+
+
 def run(ctx):
     g = G()
     P = Pairing(g)
